@@ -3,7 +3,7 @@
 Callees are contracts only (modular): Batcher::{enqueue,flush,end} (proved on the real code in unit
 `batcher`), NextStrategy::index (proved in unit `next_strategy`), prev.next() (any operator).
 The precondition `inv` is the postcondition of End::setup_senders (unit `setup_senders`)."""
-import os, sys
+import os, re, sys
 sys.path.insert(0, os.path.dirname(os.path.dirname(__file__)))
 import std_specs as S
 import shared as SH
@@ -281,8 +281,8 @@ def build(x):
     nx.add_loop_spec(2, INV_BCAST_INNER)
     nx.insert_before('let sender = &mut self.senders[sender_idx];', HINT_BCAST_STEP)
     nx.add_loop_spec(3, INV_DATA)
-    nx.insert_after('let index = self.next_strategy.index(item);', '\n                proof { g_idx = index; }')
-    nx.insert_before('let index = index', HINT_DATA_PRE)
+    nx.insert_after(re.compile(r'let (?:mut )?index = self\.next_strategy\.index\(item\);'), '\n                proof { g_idx = index; }')
+    nx.insert_before(re.compile(r'(?:let )?index (?:%=|= index %)'), HINT_DATA_PRE)
     nx.insert_before('self.senders[sender_idx].1.enqueue(message.clone());', HINT_DATA_STEP)
     nx.insert_before('// Flushing messages', GHOST_MID)
     nx.add_loop_spec(4, INV_FLUSH)
